@@ -4,12 +4,32 @@ package main
 // util/resolve/maven/resolve.go and util/resolve/dep/key.go the Lean model of the
 // Maven resolver is written against. Every value is read from /repo's working tree;
 // Props/C07.lean has a tie theorem for each.
+//
+// The constants are found by their ROLE in the type-checked package, never by the
+// name of an unexported function, variable or constant and never by the position of
+// a literal in a function body:
+//
+//   - the dep.AttrKey values: the exported constants of util/resolve/dep;
+//   - the strings an attribute value is compared with: data flow from a call of the
+//     exported method dep.Type.GetAttr(dep.<Key>) (through assignments and arguments
+//     of package-local functions) into ==, != or switch/case with a constant;
+//   - the exclusion wildcards: constant (parts of) keys looked up in a map[string]bool,
+//     and the separator of the strings.Split call of the same function;
+//   - the exclusion-list separators: the predicate handed to strings.FieldsFunc on the
+//     dep.MavenExclusions value;
+//   - the retry bound: the constant bounding the for loop of the exported method Resolve.
+//
+// Constants are evaluated by go/types (TypesInfo.Types[e].Value), so a literal, a named
+// constant and a constant expression are the same thing.
 
 import (
 	"fmt"
 	"go/ast"
+	"go/constant"
 	"go/token"
+	"go/types"
 	"path/filepath"
+	"sort"
 	"strconv"
 	"strings"
 
@@ -17,72 +37,7 @@ import (
 	"verifharness/fw"
 )
 
-func funcDecl(p *packages.Package, name string) *ast.FuncDecl {
-	for _, f := range p.Syntax {
-		for _, d := range f.Decls {
-			if fd, ok := d.(*ast.FuncDecl); ok && fd.Name.Name == name && fd.Body != nil {
-				return fd
-			}
-		}
-	}
-	return nil
-}
-
-// cmpLits lists, in source order, the string literals compared (== or !=) with the
-// identifier `id` inside fd.
-func cmpLits(p *packages.Package, fd *ast.FuncDecl, id string, op token.Token) []string {
-	var out []string
-	ast.Inspect(fd.Body, func(n ast.Node) bool {
-		b, ok := n.(*ast.BinaryExpr)
-		if !ok || b.Op != op {
-			return true
-		}
-		x, okx := b.X.(*ast.Ident)
-		if !okx || x.Name != id {
-			return true
-		}
-		if s, ok := fw.EvalStr(p, b.Y); ok {
-			out = append(out, s)
-		}
-		return true
-	})
-	return out
-}
-
-// stringLits lists the string literals of fd in source order, skipping arguments
-// of fmt.Errorf (messages).
-func stringLits(fd *ast.FuncDecl) []string {
-	var out []string
-	ast.Inspect(fd.Body, func(n ast.Node) bool {
-		if c, ok := n.(*ast.CallExpr); ok {
-			if s, ok := c.Fun.(*ast.SelectorExpr); ok {
-				if x, ok := s.X.(*ast.Ident); ok && (x.Name == "fmt" || x.Name == "log") {
-					return false
-				}
-			}
-		}
-		if l, ok := n.(*ast.BasicLit); ok && l.Kind == token.STRING {
-			if s, err := strconv.Unquote(l.Value); err == nil {
-				out = append(out, s)
-			}
-		}
-		return true
-	})
-	return out
-}
-
-func charLits(fd *ast.FuncDecl) []int {
-	var out []int
-	ast.Inspect(fd.Body, func(n ast.Node) bool {
-		if l, ok := n.(*ast.BasicLit); ok && l.Kind == token.CHAR {
-			if r, _, _, err := strconv.UnquoteChar(l.Value[1:len(l.Value)-1], '\''); err == nil {
-				out = append(out, int(r))
-			}
-		}
-		return true
-	})
-	return out
-}
+const depPkgPath = "deps.dev/util/resolve/dep"
 
 func bytesList(ss []string) string {
 	parts := make([]string, len(ss))
@@ -90,6 +45,482 @@ func bytesList(ss []string) string {
 		parts[i] = fw.LeanBytes(s)
 	}
 	return "[" + strings.Join(parts, ", ") + "]"
+}
+
+// callee returns the object a call expression calls (function, method, or a
+// variable holding a function), nil for conversions and the like.
+func callee(p *packages.Package, call *ast.CallExpr) types.Object {
+	switch f := ast.Unparen(call.Fun).(type) {
+	case *ast.Ident:
+		return p.TypesInfo.Uses[f]
+	case *ast.SelectorExpr:
+		return p.TypesInfo.Uses[f.Sel]
+	}
+	return nil
+}
+
+func isFuncOf(o types.Object, pkgPath, name string) bool {
+	f, ok := o.(*types.Func)
+	return ok && f.Pkg() != nil && f.Pkg().Path() == pkgPath && f.Name() == name
+}
+
+func identObj(p *packages.Package, e ast.Expr) types.Object {
+	id, ok := ast.Unparen(e).(*ast.Ident)
+	if !ok || id.Name == "_" {
+		return nil
+	}
+	if o := p.TypesInfo.Defs[id]; o != nil {
+		return o
+	}
+	return p.TypesInfo.Uses[id]
+}
+
+func constStr(p *packages.Package, e ast.Expr) (string, bool) { return fw.EvalStr(p, e) }
+
+func isConst(p *packages.Package, e ast.Expr) bool {
+	tv, ok := p.TypesInfo.Types[e]
+	return ok && tv.Value != nil
+}
+
+// inspectAll walks every file of the package.
+func inspectAll(p *packages.Package, fn func(ast.Node) bool) {
+	for _, f := range p.Syntax {
+		ast.Inspect(f, fn)
+	}
+}
+
+// A flow is the set of variables holding the value of one GetAttr(dep.<key>) call.
+type flow struct {
+	pos  token.Pos
+	vars map[types.Object]bool
+	ok   map[*ast.Ident]bool // occurrences accounted for (definition, comparison, forwarding)
+}
+
+type cmpConst struct {
+	pos token.Pos
+	val string
+}
+
+// attrFlows finds every `v, … := x.GetAttr(K)` with K a constant of type dep.AttrKey of
+// value key and follows v through plain assignments and arguments of package-local
+// functions.
+func attrFlows(p *packages.Package, key int64) []*flow {
+	var flows []*flow
+	seed := func(lhs ast.Expr, rhs ast.Expr) {
+		call, ok := ast.Unparen(rhs).(*ast.CallExpr)
+		if !ok || len(call.Args) != 1 || !isFuncOf(callee(p, call), depPkgPath, "GetAttr") {
+			return
+		}
+		tv, ok := p.TypesInfo.Types[call.Args[0]]
+		if !ok || tv.Value == nil {
+			return
+		}
+		nt, ok := tv.Type.(*types.Named)
+		if !ok || nt.Obj().Pkg() == nil || nt.Obj().Pkg().Path() != depPkgPath || nt.Obj().Name() != "AttrKey" {
+			return
+		}
+		if v, ok := constant.Int64Val(constant.ToInt(tv.Value)); !ok || v != key {
+			return
+		}
+		o := identObj(p, lhs)
+		if o == nil {
+			return
+		}
+		fl := &flow{pos: rhs.Pos(), vars: map[types.Object]bool{o: true}, ok: map[*ast.Ident]bool{}}
+		fl.ok[ast.Unparen(lhs).(*ast.Ident)] = true
+		flows = append(flows, fl)
+	}
+	inspectAll(p, func(n ast.Node) bool {
+		switch s := n.(type) {
+		case *ast.AssignStmt:
+			if len(s.Rhs) == 1 && len(s.Lhs) >= 1 {
+				seed(s.Lhs[0], s.Rhs[0])
+			}
+		case *ast.ValueSpec:
+			if len(s.Values) == 1 && len(s.Names) >= 1 {
+				seed(s.Names[0], s.Values[0])
+			}
+		}
+		return true
+	})
+	for _, fl := range flows {
+		for changed := true; changed; {
+			changed = false
+			add := func(o types.Object) {
+				if o != nil && !fl.vars[o] {
+					fl.vars[o] = true
+					changed = true
+				}
+			}
+			inspectAll(p, func(n ast.Node) bool {
+				switch s := n.(type) {
+				case *ast.AssignStmt:
+					if len(s.Lhs) == len(s.Rhs) {
+						for i, r := range s.Rhs {
+							if o := identObj(p, r); o != nil && fl.vars[o] {
+								if l, ok := ast.Unparen(s.Lhs[i]).(*ast.Ident); ok && l.Name != "_" {
+									add(identObj(p, l))
+									fl.ok[l] = true
+									fl.ok[ast.Unparen(r).(*ast.Ident)] = true
+								}
+							}
+						}
+					}
+				case *ast.CallExpr:
+					fn, ok := callee(p, s).(*types.Func)
+					if !ok || fn.Pkg() != p.Types {
+						return true
+					}
+					sig := fn.Type().(*types.Signature)
+					for i, a := range s.Args {
+						if o := identObj(p, a); o != nil && fl.vars[o] && i < sig.Params().Len() && !(sig.Variadic() && i >= sig.Params().Len()-1) {
+							add(sig.Params().At(i))
+							fl.ok[ast.Unparen(a).(*ast.Ident)] = true
+						}
+					}
+				}
+				return true
+			})
+		}
+	}
+	return flows
+}
+
+// compared lists the constant strings the flow's variables are compared with (==, !=,
+// switch/case), in source order, and reports whether a variable is used in any other way
+// (stored, returned, passed to foreign code, …).
+func (fl *flow) compared(p *packages.Package) (cs []cmpConst, otherUse bool) {
+	inVars := func(e ast.Expr) *ast.Ident {
+		id, ok := ast.Unparen(e).(*ast.Ident)
+		if ok && fl.vars[p.TypesInfo.Uses[id]] {
+			return id
+		}
+		return nil
+	}
+	inspectAll(p, func(n ast.Node) bool {
+		switch s := n.(type) {
+		case *ast.BinaryExpr:
+			if s.Op != token.EQL && s.Op != token.NEQ {
+				return true
+			}
+			for _, xy := range [2][2]ast.Expr{{s.X, s.Y}, {s.Y, s.X}} {
+				if id := inVars(xy[0]); id != nil {
+					if v, ok := constStr(p, xy[1]); ok {
+						cs = append(cs, cmpConst{xy[1].Pos(), v})
+						fl.ok[id] = true
+					}
+				}
+			}
+		case *ast.SwitchStmt:
+			id := (*ast.Ident)(nil)
+			if s.Tag != nil {
+				id = inVars(s.Tag)
+			}
+			if id == nil {
+				return true
+			}
+			fl.ok[id] = true
+			for _, c := range s.Body.List {
+				for _, e := range c.(*ast.CaseClause).List {
+					if v, ok := constStr(p, e); ok {
+						cs = append(cs, cmpConst{e.Pos(), v})
+					} else {
+						otherUse = true
+					}
+				}
+			}
+		}
+		return true
+	})
+	inspectAll(p, func(n ast.Node) bool {
+		if id, ok := n.(*ast.Ident); ok && fl.vars[p.TypesInfo.Uses[id]] && !fl.ok[id] {
+			otherUse = true
+		}
+		return true
+	})
+	sort.Slice(cs, func(i, j int) bool { return cs[i].pos < cs[j].pos })
+	return cs, otherUse
+}
+
+func distinct(cs []cmpConst) []string {
+	var out []string
+	seen := map[string]bool{}
+	for _, c := range cs {
+		if !seen[c.val] {
+			seen[c.val] = true
+			out = append(out, c.val)
+		}
+	}
+	return out
+}
+
+// retryBound: the exported method Resolve bounds its retry loop by `<counter> < N`.
+func retryBound(p *packages.Package) (int64, error) {
+	var bounds []int64
+	n := 0
+	for _, f := range p.Syntax {
+		for _, d := range f.Decls {
+			fd, ok := d.(*ast.FuncDecl)
+			if !ok || fd.Recv == nil || fd.Name.Name != "Resolve" || fd.Body == nil {
+				continue
+			}
+			n++
+			ast.Inspect(fd.Body, func(nd ast.Node) bool {
+				fs, ok := nd.(*ast.ForStmt)
+				if !ok || fs.Cond == nil {
+					return true
+				}
+				var leaf func(e ast.Expr)
+				leaf = func(e ast.Expr) {
+					b, ok := ast.Unparen(e).(*ast.BinaryExpr)
+					if !ok {
+						return
+					}
+					switch b.Op {
+					case token.LAND:
+						leaf(b.X)
+						leaf(b.Y)
+					case token.LSS: // i < N
+						if v, ok := fw.EvalInt(p, b.Y); ok && !isConst(p, b.X) {
+							bounds = append(bounds, v)
+						}
+					case token.GTR: // N > i
+						if v, ok := fw.EvalInt(p, b.X); ok && !isConst(p, b.Y) {
+							bounds = append(bounds, v)
+						}
+					}
+				}
+				leaf(fs.Cond)
+				return true
+			})
+		}
+	}
+	if n != 1 {
+		return 0, fmt.Errorf("maven: expected one method Resolve, found %d", n)
+	}
+	if len(bounds) != 1 || bounds[0] < 0 {
+		return 0, fmt.Errorf("maven.Resolve: expected one for loop bounded by `counter < constant`, found bounds %v", bounds)
+	}
+	return bounds[0], nil
+}
+
+type exclConsts struct{ all, sep, groupSuffix, artifactPrefix string }
+
+func isStringBoolMap(t types.Type) bool {
+	m, ok := t.Underlying().(*types.Map)
+	if !ok {
+		return false
+	}
+	k, ok1 := m.Key().Underlying().(*types.Basic)
+	v, ok2 := m.Elem().Underlying().(*types.Basic)
+	return ok1 && ok2 && k.Kind() == types.String && v.Kind() == types.Bool
+}
+
+// exclusionConsts reads the function that looks wildcards up in a map[string]bool:
+// m[<const>] (everything excluded), m[x+<const>] and m[<const>+y] (group / artifact
+// wildcard), and the constant separator of the strings.Split call that yields x and y.
+func exclusionConsts(p *packages.Package) (exclConsts, error) {
+	var out exclConsts
+	found := 0
+	for _, f := range p.Syntax {
+		for _, d := range f.Decls {
+			fd, ok := d.(*ast.FuncDecl)
+			if !ok || fd.Body == nil {
+				continue
+			}
+			var all, suf, pre, seps []string
+			ast.Inspect(fd.Body, func(n ast.Node) bool {
+				switch x := n.(type) {
+				case *ast.IndexExpr:
+					tv, ok := p.TypesInfo.Types[x.X]
+					if !ok || !isStringBoolMap(tv.Type) {
+						return true
+					}
+					if s, ok := constStr(p, x.Index); ok {
+						all = append(all, s)
+						return true
+					}
+					if b, ok := ast.Unparen(x.Index).(*ast.BinaryExpr); ok && b.Op == token.ADD {
+						if s, ok := constStr(p, b.Y); ok && !isConst(p, b.X) {
+							suf = append(suf, s)
+						} else if s, ok := constStr(p, b.X); ok && !isConst(p, b.Y) {
+							pre = append(pre, s)
+						}
+					}
+				case *ast.CallExpr:
+					if o := callee(p, x); (isFuncOf(o, "strings", "Split") || isFuncOf(o, "strings", "SplitN")) && len(x.Args) >= 2 {
+						if s, ok := constStr(p, x.Args[1]); ok {
+							seps = append(seps, s)
+						}
+					}
+				}
+				return true
+			})
+			if len(suf) == 0 && len(pre) == 0 {
+				continue
+			}
+			found++
+			if len(all) != 1 || len(suf) != 1 || len(pre) != 1 || len(seps) != 1 {
+				return out, fmt.Errorf("maven.%s: expected one constant key, one x+constant key, one constant+y key looked up in a map[string]bool and one strings.Split separator, found %q %q %q %q",
+					fd.Name.Name, all, suf, pre, seps)
+			}
+			out = exclConsts{all[0], seps[0], suf[0], pre[0]}
+		}
+	}
+	if found != 1 {
+		return out, fmt.Errorf("maven: expected one function looking wildcard keys up in a map[string]bool, found %d", found)
+	}
+	return out, nil
+}
+
+// funcBody resolves an expression used as a function value to its parameters and body:
+// a function literal, a package-level function, or a local variable assigned a literal.
+func funcBody(p *packages.Package, e ast.Expr) (*ast.FieldList, *ast.BlockStmt) {
+	e = ast.Unparen(e)
+	if fl, ok := e.(*ast.FuncLit); ok {
+		return fl.Type.Params, fl.Body
+	}
+	o := identObj(p, e)
+	if o == nil {
+		return nil, nil
+	}
+	var params *ast.FieldList
+	var body *ast.BlockStmt
+	inspectAll(p, func(n ast.Node) bool {
+		switch s := n.(type) {
+		case *ast.FuncDecl:
+			if p.TypesInfo.Defs[s.Name] == o && s.Body != nil {
+				params, body = s.Type.Params, s.Body
+			}
+		case *ast.AssignStmt:
+			if len(s.Lhs) == len(s.Rhs) {
+				for i, l := range s.Lhs {
+					if identObj(p, l) == o {
+						if fl, ok := ast.Unparen(s.Rhs[i]).(*ast.FuncLit); ok {
+							params, body = fl.Type.Params, fl.Body
+						}
+					}
+				}
+			}
+		case *ast.ValueSpec:
+			for i, l := range s.Names {
+				if p.TypesInfo.Defs[l] == o && i < len(s.Values) {
+					if fl, ok := ast.Unparen(s.Values[i]).(*ast.FuncLit); ok {
+						params, body = fl.Type.Params, fl.Body
+					}
+				}
+			}
+		}
+		return true
+	})
+	return params, body
+}
+
+// exclusionSeparators: the runes accepted by the predicate given to strings.FieldsFunc
+// when it splits the dep.MavenExclusions value (or, failing to follow the value, by the
+// only strings.FieldsFunc call of the package).
+func exclusionSeparators(p *packages.Package, exclFlows []*flow) ([]int, error) {
+	var calls, onFlow []*ast.CallExpr
+	inspectAll(p, func(n ast.Node) bool {
+		c, ok := n.(*ast.CallExpr)
+		if !ok || !isFuncOf(callee(p, c), "strings", "FieldsFunc") || len(c.Args) != 2 {
+			return true
+		}
+		calls = append(calls, c)
+		if o := identObj(p, c.Args[0]); o != nil {
+			for _, fl := range exclFlows {
+				if fl.vars[o] {
+					onFlow = append(onFlow, c)
+					break
+				}
+			}
+		}
+		return true
+	})
+	if len(onFlow) > 0 {
+		calls = onFlow
+	}
+	if len(calls) != 1 {
+		return nil, fmt.Errorf("maven: expected one strings.FieldsFunc call on the MavenExclusions value, found %d", len(calls))
+	}
+	params, body := funcBody(p, calls[0].Args[1])
+	if body == nil || params == nil || len(params.List) != 1 || len(params.List[0].Names) != 1 {
+		return nil, fmt.Errorf("maven: the separator predicate of strings.FieldsFunc is not a function with one named parameter whose body is in the package")
+	}
+	r := p.TypesInfo.Defs[params.List[0].Names[0]]
+	var seps []int
+	okUse := map[*ast.Ident]bool{}
+	isR := func(e ast.Expr) *ast.Ident {
+		id, ok := ast.Unparen(e).(*ast.Ident)
+		if ok && r != nil && p.TypesInfo.Uses[id] == r {
+			return id
+		}
+		return nil
+	}
+	addConst := func(e ast.Expr) bool {
+		v, ok := fw.EvalInt(p, e)
+		if ok {
+			seps = append(seps, int(v))
+		}
+		return ok
+	}
+	ast.Inspect(body, func(n ast.Node) bool {
+		switch s := n.(type) {
+		case *ast.BinaryExpr:
+			if s.Op != token.EQL {
+				return true
+			}
+			for _, xy := range [2][2]ast.Expr{{s.X, s.Y}, {s.Y, s.X}} {
+				if id := isR(xy[0]); id != nil && addConst(xy[1]) {
+					okUse[id] = true
+				}
+			}
+		case *ast.SwitchStmt:
+			if s.Tag == nil {
+				return true
+			}
+			if id := isR(s.Tag); id != nil {
+				all := true
+				for _, c := range s.Body.List {
+					for _, e := range c.(*ast.CaseClause).List {
+						all = addConst(e) && all
+					}
+				}
+				okUse[id] = all
+			}
+		case *ast.CallExpr: // strings.ContainsRune("|,", r), strings.IndexRune("|,", r)
+			if o := callee(p, s); (isFuncOf(o, "strings", "ContainsRune") || isFuncOf(o, "strings", "IndexRune")) && len(s.Args) == 2 {
+				if id := isR(s.Args[1]); id != nil {
+					if set, ok := constStr(p, s.Args[0]); ok {
+						for _, c := range set {
+							seps = append(seps, int(c))
+						}
+						okUse[id] = true
+					}
+				}
+			}
+		}
+		return true
+	})
+	bad := false
+	ast.Inspect(body, func(n ast.Node) bool {
+		if id, ok := n.(*ast.Ident); ok && isR(id) != nil && !okUse[id] {
+			bad = true
+		}
+		return true
+	})
+	if bad || len(seps) == 0 {
+		return nil, fmt.Errorf("maven: the separator predicate of strings.FieldsFunc is not a comparison of its parameter with constants (found %v)", seps)
+	}
+	var out []int
+	seen := map[int]bool{}
+	for _, c := range seps {
+		if !seen[c] {
+			seen[c] = true
+			out = append(out, c)
+		}
+	}
+	return out, nil
 }
 
 func genC07Consts(repo string) (string, error) {
@@ -105,99 +536,97 @@ func genC07Consts(repo string) (string, error) {
 	b.WriteString("-- C07Consts: constants of util/resolve/maven/resolve.go and util/resolve/dep/key.go used by the Maven resolver model.\n")
 	b.WriteString("namespace DepsDev.Gen.C07Consts\n\n")
 
-	// maxRetries: a constant local to (*resolver).Resolve
-	res := funcDecl(mv, "Resolve")
-	if res == nil {
-		return "", fmt.Errorf("maven: no func Resolve")
-	}
-	maxRetries := int64(-1)
-	ast.Inspect(res.Body, func(n ast.Node) bool {
-		if vs, ok := n.(*ast.ValueSpec); ok {
-			for i, nm := range vs.Names {
-				if nm.Name == "maxRetries" && i < len(vs.Values) {
-					if v, ok := fw.EvalInt(mv, vs.Values[i]); ok {
-						maxRetries = v
-					}
-				}
-			}
-		}
-		return true
-	})
-	if maxRetries < 0 {
-		return "", fmt.Errorf("maven.Resolve: constant maxRetries not found")
+	maxRetries, err := retryBound(mv)
+	if err != nil {
+		return "", err
 	}
 	fmt.Fprintf(&b, "/-- `const maxRetries` in (*resolver).Resolve -/\ndef maxRetries : Nat := %d\n\n", maxRetries)
 
-	// dep.AttrKey constants
-	names, vals := fw.ConstsOfType(dp, "AttrKey")
-	want := map[string]string{"Opt": "keyOpt", "Test": "keyTest", "Scope": "keyScope", "MavenClassifier": "keyClassifier",
-		"MavenArtifactType": "keyArtifactType", "MavenDependencyOrigin": "keyOrigin", "MavenExclusions": "keyExclusions", "Selector": "keySelector"}
-	found := 0
-	for i, n := range names {
-		if ln, ok := want[n]; ok {
-			fmt.Fprintf(&b, "/-- dep.%s -/\ndef %s : Int := %d\n", n, ln, vals[i])
-			found++
+	// dep.AttrKey constants (exported API of util/resolve/dep), in a fixed order
+	keys := map[string]int64{}
+	for _, k := range [][2]string{{"Opt", "keyOpt"}, {"Test", "keyTest"}, {"Scope", "keyScope"}, {"MavenClassifier", "keyClassifier"},
+		{"MavenArtifactType", "keyArtifactType"}, {"MavenDependencyOrigin", "keyOrigin"}, {"MavenExclusions", "keyExclusions"}, {"Selector", "keySelector"}} {
+		c, ok := dp.Types.Scope().Lookup(k[0]).(*types.Const)
+		if !ok {
+			return "", fmt.Errorf("dep: no constant %s", k[0])
 		}
-	}
-	if found != len(want) {
-		return "", fmt.Errorf("dep: expected %d AttrKey constants, found %d", len(want), found)
+		if nt, ok := c.Type().(*types.Named); !ok || nt.Obj().Name() != "AttrKey" || nt.Obj().Pkg() != dp.Types {
+			return "", fmt.Errorf("dep.%s is not an AttrKey", k[0])
+		}
+		v, err := fw.ConstInt(dp, k[0])
+		if err != nil {
+			return "", err
+		}
+		keys[k[0]] = v
+		fmt.Fprintf(&b, "/-- dep.%s -/\ndef %s : Int := %d\n", k[0], k[1], v)
 	}
 	b.WriteString("\n")
 
-	one := func(fn, id string, op token.Token, lean, doc string) error {
-		fd := funcDecl(mv, fn)
-		if fd == nil {
-			return fmt.Errorf("maven: no func %s", fn)
+	// strings the attribute values are compared with
+	oneValue := func(attr, what string) (string, error) {
+		var cs []cmpConst
+		for _, fl := range attrFlows(mv, keys[attr]) {
+			c, _ := fl.compared(mv)
+			cs = append(cs, c...)
 		}
-		ls := cmpLits(mv, fd, id, op)
-		if len(ls) != 1 {
-			return fmt.Errorf("maven.%s: expected one string compared (%s) with %s, found %q", fn, op, id, ls)
+		vs := distinct(cs)
+		if len(vs) != 1 {
+			return "", fmt.Errorf("maven: expected the value of GetAttr(dep.%s) to be compared with one constant string (%s), found %q", attr, what, vs)
 		}
-		fmt.Fprintf(&b, "/-- %s -/\ndef %s : List UInt8 := %s\n", doc, lean, fw.LeanBytes(ls[0]))
-		return nil
+		return vs[0], nil
 	}
-	// types whose artifacts include their dependencies (not traversed)
-	rs := funcDecl(mv, "resolve")
-	if rs == nil {
-		return "", fmt.Errorf("maven: no func resolve")
+	// dep.MavenArtifactType is read twice: once only to test membership in a set of types
+	// (whose artifacts include their dependencies), once to be kept unless it is the default.
+	var member []cmpConst
+	var deflt []string
+	for _, fl := range attrFlows(mv, keys["MavenArtifactType"]) {
+		cs, stored := fl.compared(mv)
+		if len(cs) == 0 {
+			continue
+		}
+		if stored {
+			deflt = append(deflt, distinct(cs)...)
+		} else {
+			member = append(member, cs...)
+		}
 	}
-	wars := cmpLits(mv, rs, "t", token.EQL)
+	sort.Slice(member, func(i, j int) bool { return member[i].pos < member[j].pos })
+	wars := distinct(member)
 	if len(wars) == 0 {
-		return "", fmt.Errorf("maven.resolve: no artifact types compared with t")
+		return "", fmt.Errorf("maven: no GetAttr(dep.MavenArtifactType) value that is only compared with constant artifact types")
+	}
+	if len(deflt) != 1 {
+		return "", fmt.Errorf("maven: expected one GetAttr(dep.MavenArtifactType) value kept unless equal to one constant (the default type), found %q", deflt)
 	}
 	fmt.Fprintf(&b, "/-- `n.includesDependencies = t == … || …` in resolve: the artifact types, in source order -/\ndef includesDependenciesTypes : List (List UInt8) := %s\n", bytesList(wars))
-	if err := one("imports", "scope", token.EQL, "scopeProvided", "`scope == …` in imports"); err != nil {
+	provided, err := oneValue("Scope", "the provided scope")
+	if err != nil {
 		return "", err
 	}
-	if err := one("dependencyManagement", "origin", token.NEQ, "originManagement", "`origin != …` in dependencyManagement"); err != nil {
+	fmt.Fprintf(&b, "/-- `scope == …` in imports -/\ndef scopeProvided : List UInt8 := %s\n", fw.LeanBytes(provided))
+	mgmt, err := oneValue("MavenDependencyOrigin", "the management origin")
+	if err != nil {
 		return "", err
 	}
-	if err := one("packageKeyForDependency", "typ", token.NEQ, "defaultArtifactType", "`typ != …` in packageKeyForDependency"); err != nil {
+	fmt.Fprintf(&b, "/-- `origin != …` in dependencyManagement -/\ndef originManagement : List UInt8 := %s\n", fw.LeanBytes(mgmt))
+	fmt.Fprintf(&b, "/-- `typ != …` in packageKeyForDependency -/\ndef defaultArtifactType : List UInt8 := %s\n", fw.LeanBytes(deflt[0]))
+
+	ex, err := exclusionConsts(mv)
+	if err != nil {
 		return "", err
-	}
-	ex := funcDecl(mv, "isExcluded")
-	if ex == nil {
-		return "", fmt.Errorf("maven: no func isExcluded")
-	}
-	ls := stringLits(ex)
-	if len(ls) != 4 {
-		return "", fmt.Errorf("maven.isExcluded: expected 4 string literals (all, separator, group suffix, artifact prefix), found %q", ls)
 	}
 	fmt.Fprintf(&b, "/-- string literals of isExcluded in source order: all-exclusion, name separator, group wildcard suffix, artifact wildcard prefix -/\n")
 	fmt.Fprintf(&b, "def exclAll : List UInt8 := %s\ndef nameSep : List UInt8 := %s\ndef exclGroupSuffix : List UInt8 := %s\ndef exclArtifactPrefix : List UInt8 := %s\n",
-		fw.LeanBytes(ls[0]), fw.LeanBytes(ls[1]), fw.LeanBytes(ls[2]), fw.LeanBytes(ls[3]))
-	pe := funcDecl(mv, "parseExclusions")
-	if pe == nil {
-		return "", fmt.Errorf("maven: no func parseExclusions")
-	}
-	cs := charLits(pe)
-	if len(cs) == 0 {
-		return "", fmt.Errorf("maven.parseExclusions: no separator characters")
+		fw.LeanBytes(ex.all), fw.LeanBytes(ex.sep), fw.LeanBytes(ex.groupSuffix), fw.LeanBytes(ex.artifactPrefix))
+
+	cs, err := exclusionSeparators(mv, attrFlows(mv, keys["MavenExclusions"]))
+	if err != nil {
+		return "", err
 	}
 	var cparts []string
 	for _, c := range cs {
-		if c >= 0x80 {
-			return "", fmt.Errorf("maven.parseExclusions: non-ASCII separator %d", c)
+		if c < 0 || c >= 0x80 {
+			return "", fmt.Errorf("maven: non-ASCII exclusion separator %d", c)
 		}
 		cparts = append(cparts, strconv.Itoa(c))
 	}
